@@ -42,8 +42,16 @@ def main():
                 out.append("ok " + str(h.get_backend()))
             elif kind == "has":
                 out.append("ok " + str(h.has_backend(op[2])))
-            elif kind == "calc":
+            elif kind in ("calc", "calcnu"):
                 secret = bytes.fromhex(op[2])
+                if kind == "calcnu":
+                    # a secret crypt() cannot take: used unless bcrypt's active backend is (or would become) os_crypt, whose refusal is a recorded finding
+                    owner = getattr(h, "wrapped", h)
+                    cur = None
+                    for c in getattr(owner, "__mro__", ()):
+                        cur = cur or c.__dict__.get("_BackendMixin__backend")
+                    if cur in (None, "os_crypt"):
+                        secret = b"pw2"
                 hs = h.using(**FIX[name]).hash(secret)
                 target = getattr(h, "wrapped", h)
                 out.append("ok " + str(target.get_backend()) + " " + hs)
